@@ -1263,6 +1263,10 @@ class H2Stream:
             )
         ]
 
+        # An empty header list (e.g. empty trailers) encodes to an empty block.
+        if not header_blocks:
+            header_blocks = [b'']
+
         frames = []
         first_frame.data = header_blocks[0]
         frames.append(first_frame)
